@@ -94,9 +94,29 @@ class Interval:
         self.hi_atom = None
 
 
+_COUNTISH = re.compile(r"(num_\w+|_length|\blength|\bsize)\)?$")
+
+
+def orient(d):
+    """Put the *subject* of every relational atom on the left.  dnf() already moves constants to the right; this also handles
+    `count <= x`: x is a subject when it is compared with a constant elsewhere in the same condition, or when the left side
+    is spelled like a count and the right side is not."""
+    subjects = {a.lhs for conj in d for a in conj if a.op in FLIP and a.rn is not None and _is_constlike(a.rn)}
+    for conj in d:
+        for a in conj:
+            if a.op not in ("<", "<=", ">", ">=") or a.rn is None or _is_constlike(a.rn):
+                continue
+            flip = (a.rhs in subjects and a.lhs not in subjects) or \
+                   (not subjects and _COUNTISH.search(a.lhs) and not _COUNTISH.search(a.rhs))
+            if flip:
+                a.lhs, a.rhs, a.ln, a.rn, a.op = a.rhs, a.lhs, a.rn, a.ln, FLIP[a.op]
+    return d
+
+
 def intervals(d):
     """Per-subject accepted intervals from a DNF (list of conjunctions)."""
     out = {}
+    d = orient(d)
     for conj in d:
         rel = [a for a in conj if a.op in ("<", "<=", ">", ">=")]
         other = [a for a in conj if a not in rel]
